@@ -778,7 +778,11 @@ def st_scheme_case(draw, scheme, max_total=None, max_kw=12):
     desc = DESCS[scheme]
     cfg = desc.st_config(draw)
     spec = draw(st_db_spec(desc, cfg, max_total, max_kw))
-    return {"scheme": scheme, "cfg": cfg, "db": spec, "seed": draw(st.integers(0, 2 ** 48))}
+    case = {"scheme": scheme, "cfg": cfg, "db": spec, "seed": draw(st.integers(0, 2 ** 48))}
+    if draw(st.integers(0, 3)) == 0:
+        from vlib.drbg import KEY_PATTERNS
+        case["key_pattern"] = draw(st.sampled_from(KEY_PATTERNS))   # key bytes with structured ends (line break, NUL, blank, padding ...)
+    return case
 
 
 def prepare(case):
